@@ -5,7 +5,7 @@
     committed copy is the table of the tree with fixes/C15-pshandler-loadedmu.patch applied; every run of the
     check regenerates the table from the current tree and re-proves the obligations below against it). *)
 From Coq Require Import List NArith Bool Lia.
-From V Require Import Race.Lockset Race.Tight Race.PsView Race.Generated_Accesses.
+From V Require Import Race.Lockset Race.Tight Race.Refcount Race.PsView Race.Generated_Accesses.
 Import ListNotations.
 
 (** Generic: for ANY access table T, any assignment of goroutine classes to threads and any well-formed trace
@@ -44,10 +44,11 @@ Theorem C15_sched_lockset_refuted : ~ C15_sched_lockset_full.
 Proof. unfold C15_sched_lockset_full. vm_compute. discriminate. Qed.
 Print Assumptions C15_sched_lockset_refuted.
 
-(** The check is exact for the table semantics (converse of C15_lockset_sound): a rejected table has a
-    well-formed conforming execution with two unordered conflicting accesses. *)
+(** The check is exact for the table semantics (converse of C15_lockset_sound): a table with a rejected pair
+    (neither side of which relies on an observed signal) has a well-formed conforming execution with two
+    unordered conflicting accesses. *)
 Theorem C15_lockset_tight : forall T : table,
-  lockset_ok T = false ->
+  plain_bad_pair T = true ->
   exists (cls_of : tid -> N) (tr : trace), wf_trace tr /\ conforms T cls_of tr /\ safe_init T tr /\ ~ race_free tr.
 Proof. exact lockset_tight. Qed.
 Print Assumptions C15_lockset_tight.
@@ -86,6 +87,20 @@ Example C15_partial_nonvacuous :
   Nat.leb 6 (length (filter (waive waived) (entries accesses))) = true.
 Proof. split; vm_compute; reflexivity. Qed.
 
+(** Ordering by a reference count instead of a mutex (scheduleRunner reads runner.llama, unload writes it): if the
+    use at i lies inside a reference (after observing its grant, before its release is posted) and the teardown at j
+    respects the reference (before every grant of it, or after consuming its release) then the two are ordered.
+    The hypothesis [guarded] is the scheduler's reference-count invariant: C01_no_close_in_use and
+    C01_no_grant_closed (coq/Sched/Properties_C01.v) for the repaired scheduler. *)
+Theorem C15_refcount_read_ordered : forall tr gsig rsig i j h w oi oj,
+  wf_trace tr -> nth_error tr i = Some (h, oi) -> nth_error tr j = Some (w, oj) ->
+  inside tr gsig rsig i h -> guarded tr gsig rsig j w -> hb tr i j \/ hb tr j i.
+Proof. exact refcount_ordered. Qed.
+Print Assumptions C15_refcount_read_ordered.
+
+Example C15_refcount_nonvacuous : wf_trace ex_tr /\ hb ex_tr 2 6.
+Proof. split; [exact ex_wf | exact ex_ordered]. Qed.
+
 (** a concrete conforming two-thread trace with a hand-off, to show the hypotheses of the sound theorem are
     satisfiable: thread 1 locks, forks thread 2 handing the lock over, thread 2 writes and unlocks, thread 3
     locks and reads; the two accesses are ordered *)
@@ -95,13 +110,14 @@ Example C15_handoff_trace_ordered :
   wf_trace tr /\ hb tr 2 5.
 Proof.
   cbv zeta. split.
-  - split.
+  - split; [|split].
     + eexists. vm_compute. reflexivity.
     + intros i t c g H. destruct i as [|[|i]].
       * discriminate.
       * inversion H; subst. split; [discriminate|]. intros j e Hj He.
         destruct j as [|[|j]]; [| | lia]; cbn in He; inversion He; subst; discriminate.
       * cbn in H. do 4 (destruct i as [|i]; [discriminate|]). destruct i; discriminate.
+    + intros q t c H. destruct q as [|[|[|[|[|[|q]]]]]]; cbn in H; try discriminate. destruct q; discriminate.
   - eapply hb_trans; [eapply (hb_po _ 2 3); [auto | reflexivity | reflexivity]|].
     eapply hb_trans; [eapply (hb_sw _ 3 4); [auto | reflexivity | reflexivity]|].
     eapply (hb_po _ 4 5); [auto | reflexivity | reflexivity].
